@@ -17,6 +17,16 @@ def gen_group(rng, nq):
         q, ts = relgen2.gen_query(rng, tables, rng.randint(1, 3))
         q = relgen2.with_order_limit(rng, q, ts)
         qs.append({"q": q, "kind": q[0] if q[0] not in ("sort", "limit") else q[0] + ">" + (q[1][1][0] if q[0] == "limit" else q[1][0])})
+    # directed expression atoms over a string column: LIKE shapes that have fast paths in the engine (prefix, suffix, contains,
+    # prefix%suffix with overlapping ends, single wildcards), plain and negated, on every stored string incl. NULL
+    for ti, t in enumerate(tables):
+        sc = [i for i, ty in enumerate(t["types"]) if ty == "str"]
+        if sc and rng.random() < 0.7:
+            i = rng.choice(sc)
+            for _ in range(2):
+                pat = rng.choice(["ab%ba", "a%a", "ab%b", "é%é", "a%b", "%a", "a%", "%b%", "_", "a_a", "%", "", "ab_", "_b%"])
+                e = ("like", relgen.col(i), relgen.lit(pat), rng.random() < 0.4)
+                qs.append({"q": ("filter", relgen.tbl(ti, t), e), "kind": "filter-like"})
     return {"tables": tables, "queries": qs}
 
 def run(ctx):
